@@ -407,15 +407,20 @@ func runRaw(cs Case, st *stats) (key, expected, observed string) {
 		args[i] = rawArg(t)
 	}
 	kk := fmt.Sprintf("rawargs:%s:%s", cs.Kind, strings.Join(cs.Raw, ","))
-	// A list whose last string would pair up with whatever follows it at the call site is not
-	// comparable (documented pairing rule: a string takes the next argument as its value).
+	// A list whose last string would pair up with whatever follows it at the call site (documented
+	// pairing rule: a string takes the next argument as its value) is compared with nothing after it.
+	dangling := false // the list ends in a string with nothing to pair with: compared without a trailing attribute
 	for i := 0; i < len(cs.Raw); i++ {
 		if strings.HasPrefix(cs.Raw[i], "s:") {
 			if i+1 == len(cs.Raw) {
-				return "", "", ""
+				dangling = true
 			}
 			i++
 		}
+	}
+	var tail []any
+	if !dangling {
+		tail = []any{slog.Int("z", 9)}
 	}
 	st.equiv++
 	for _, under := range []string{"", "wg"} {
@@ -426,8 +431,8 @@ func runRaw(cs Case, st *stats) (key, expected, observed string) {
 			// a non-empty tail keeps the group present on both sides
 			l1, l2 = l1.WithGroup(under), l2.WithGroup(under)
 		}
-		logrun.Emit(l1.With(args...), 1, "m", []any{slog.Int("z", 9)})
-		logrun.Emit(l2, 1, "m", append(append([]any(nil), args...), slog.Int("z", 9)))
+		logrun.Emit(l1.With(args...), 1, "m", tail)
+		logrun.Emit(l2, 1, "m", append(append([]any(nil), args...), tail...))
 		a, err1 := logrun.StripTime(cs.Kind, o1.buf.Bytes())
 		b, err2 := logrun.StripTime(cs.Kind, o2.buf.Bytes())
 		if err1 != nil || err2 != nil || string(a) != string(b) {
